@@ -29,6 +29,11 @@
 
   Denotation: `fragP I : PSem (FVal γ)` — partial (an ill-formed expression denotes nothing), over abstract
   columns `γ` and an interpretation `I` of the column-level operations (what pandas does to the rows).
+  Definedness is decided on the labels alone (`schOp` / `schemaOf`, tied to the real `columns` / `ndim`): labels
+  present and duplicate-free; Binop of two frames only with equal label lists (D39); Merge only with `mergeOK`
+  (keys are columns, no key / non-key collision across the sides — D34 —, duplicate-free result labels); a row-wise
+  Concat needs an input with columns and, for join="inner", columns in every input (`Concat._meta` leaves inputs
+  without columns out when it declares the labels).
 -/
 import DxModel.Drivers
 import DxModel.Lemmas.DriversSem
